@@ -470,3 +470,49 @@ def rule_cyclic_site_wrap(ctx):
                         r.ok(q, sample={"builder": q, "sites": src_of(c.args[2])})
     r.floor(n, 1, "two-site embeddings inside loops that cover the last site of a periodic chain")
     return r
+
+
+def rule_product_order(ctx):
+    r = RuleResult(
+        "product-order",
+        "simplify_single_site_ops multiplies the matrices of several operators acting on one site in the order they are listed "
+        "(ops[0] @ ops[1] @ ...): a fold with matmul over the operators as given, or a loop whose accumulator is the *left* operand of every "
+        "`@`. An accumulator on the right (new factor @ accumulator), or a reversed traversal, builds the reversed product — wrong for any "
+        "non-commuting factors (x·z ↦ z·x; every Jordan–Wigner hop changes sign)",
+    )
+    f = ctx.prog.func("quimb.operator.builder", "simplify_single_site_ops")
+    if f is None:
+        raise AnalysisError("product-order: builder.simplify_single_site_ops not found")
+    where = f"{f.module.relpath}:{f.lineno}"
+    n = 0
+    # fold form
+    for c in ast.walk(f.node):
+        if isinstance(c, ast.Call) and (dotted(c.func) or "").split(".")[-1] == "reduce" and c.args and (dotted(c.args[0]) or "").endswith("matmul"):
+            n += 1
+            seq = c.args[1] if len(c.args) > 1 else None
+            rev = seq is not None and any((isinstance(x, ast.Call) and dotted(x.func) == "reversed") or
+                                          (isinstance(x, ast.Subscript) and isinstance(x.slice, ast.Slice) and x.slice.step is not None and const_value(x.slice.step, None) == -1)
+                                          for x in ast.walk(seq))
+            if rev:
+                r.bad(Finding("product-order", "simplify_single_site_ops", f"`{src_of(c)[:60]}` folds the operators in reversed order", where=f"{f.module.relpath}:{c.lineno}", operand="reversed-fold"))
+            else:
+                r.ok("simplify_single_site_ops[fold]", sample={"product": src_of(c)[:60]})
+    # loop form: acc = <a> @ <b> with acc on one side
+    for a in ast.walk(f.node):
+        if isinstance(a, ast.Assign) and len(a.targets) == 1 and isinstance(a.targets[0], ast.Name) and isinstance(a.value, ast.BinOp) and isinstance(a.value.op, ast.MatMult):
+            acc = a.targets[0].id
+            left_is_acc = isinstance(a.value.left, ast.Name) and a.value.left.id == acc
+            right_is_acc = isinstance(a.value.right, ast.Name) and a.value.right.id == acc
+            if not (left_is_acc or right_is_acc):
+                continue
+            n += 1
+            if right_is_acc and not left_is_acc:
+                r.bad(Finding("product-order", "simplify_single_site_ops", f"`{src_of(a)}` puts each new factor to the *left* of the accumulated product: the operators are multiplied in reverse",
+                              where=f"{f.module.relpath}:{a.lineno}", operand="accumulator-right"))
+            else:
+                r.ok("simplify_single_site_ops[loop]", sample={"product": src_of(a)})
+        if isinstance(a, ast.AugAssign) and isinstance(a.op, ast.MatMult):
+            n += 1
+            r.ok("simplify_single_site_ops[loop]", sample={"product": src_of(a)})
+    r.floor(n, 1, "matrix products of same-site operators in simplify_single_site_ops")
+    return r
